@@ -154,6 +154,7 @@ INJECT = [
     ("native/merge_drop.rs", "src/engine/operators/merge_drop.rs", "verif_nat_merge_drop", ("native",)),
     ("native/column_buffer.rs", "src/mem_store/column_buffer.rs", "verif_nat_column_buffer", ("native",)),
     ("native/meta_store.rs", "src/disk_store/meta_store.rs", "verif_nat_meta_store", ("native",)),
+    ("native/file_writer.rs", "src/disk_store/file_writer.rs", "verif_nat_file_writer", ("native",)),
 ]
 
 
